@@ -682,7 +682,9 @@ func isTransportSend(c *ssa.CallCommon) bool {
 	if !c.IsInvoke() || ifaceOf(c) != "Transport" {
 		return false
 	}
-	return strings.HasPrefix(c.Method.Name(), "Send")
+	// Shutdown blocks as well: it takes the transport's write lock, which every Send* of this node holds (shared) for
+	// the whole of its unbounded RPC, and then waits for incoming handlers — which need the node mutex.
+	return strings.HasPrefix(c.Method.Name(), "Send") || c.Method.Name() == "Shutdown"
 }
 
 func (a *LockAnalysis) flowCall(c *LockCtx, site ssa.CallInstruction, cc *ssa.CallCommon, st LState, rec, deferred bool) LState {
